@@ -1,5 +1,5 @@
 #!/usr/bin/env python3
-"""C18 - registry credentials and custom headers reach only their own image and host (Creds.tla, Fetcher.tla).
+"""C18 - registry credentials and custom headers reach only their own image and host (Creds.tla, Fetcher.tla, Hosts.tla).
 
 Stages (independent TLC runs are started concurrently; vlib itself is unchanged, see Par below):
   M  exhaustive TLC runs of Creds / Fetcher + one negative control per property-bearing guard
@@ -7,6 +7,8 @@ Stages (independent TLC runs are started concurrently; vlib itself is unchanged,
        Creds   -> request sequences against cri.NewCRIKeychain (stub CRI backend) + resolver.multiCredsFuncs
        Fetcher -> interleavings of newHTTPFetcher / fetch / check / refreshURL steps and registry personality changes,
                   forced on real goroutines through the gates in fs/remote/resolver.go and a blocking in-memory registry
+       Hosts   -> mirror configurations through resolver.RegistryHostsFromConfig and a fall-through remote.Resolver.Resolve over
+                  loopback HTTP servers that record every request
   T  seeded random request sequences (Creds), free-running goroutines under -race (Fetcher)
   every recorded trace -> <Module>Trace (conformance) and <Module>Monitor (the C18 formulas on what the implementation did)
 """
@@ -18,11 +20,14 @@ from vlib import *
 CREDS_OVERLAY = {"service/keychain/cri/verif_creds_test.go": "service/keychain/cri/verif_creds_test.go",
                  "service/resolver/verif_export.go": "service/resolver/verif_export.go"}
 FETCH_OVERLAY = {"fs/remote/verif_fetcher_test.go": "fs/remote/verif_fetcher_test.go"}
+HOSTS_OVERLAY = {"service/resolver/verif_hosts_test.go": "service/resolver/verif_hosts_test.go"}
 
 CREDS_PROPS = ("OnlyLatestPullOfExactRef", "ServerAddressMustMatch", "GoneAfterRemove", "FirstNonEmptyWins")
 CREDS_INTERNAL = ("ConfigIsLatest", "NothingBeforeConnect")
 FETCH_PROPS = ("ConfinedHeaders", "ConfinedAuth")
 FETCH_INTERNAL = ("PairConsistent", "TypeOK", "HostHeadersDelivered")
+HOSTS_PROPS = ("HostHeadersOwn", "SentHeadersOwn")
+HOSTS_INTERNAL = ("ListShape",)
 
 TORN = ({"HeaderReadUnderLock": "FALSE"}, "HeaderReadUnderLock=FALSE")
 ALL_FORMS = ["up", "up@reg", "up@dio", "up@bare", "up@dhub", "tok", "tok@dio", "b64", "b64@reg", "bad64", "empty@reg", "nil"]
@@ -42,7 +47,7 @@ class Par:
 
     def __init__(self, run, n=8):
         self.run, self.pool, self.lock, self.golock = run, ThreadPoolExecutor(n), threading.Lock(), threading.Lock()
-        self.leaf = ThreadPoolExecutor(4)   # tasks started by a stage and awaited by it (they never wait themselves)
+        self.leaf = ThreadPoolExecutor(8)   # tasks started by a stage and awaited by it (they never wait themselves)
         self.futs = []
         prep = run._prep
 
@@ -115,7 +120,7 @@ def validate(par, what, trace_path, tmod, tcfg, mmod, mcfg, ov, props, nontrivia
         tr = trace_of(line)
         ev = events[line - 1] if 0 < line <= len(events) else {}
         if viol in props:
-            key = ":".join(str(ev.get(k)) for k in ("ev", "a", "host", "hdr", "auth", "ref", "chain") if k in ev)
+            key = ":".join(str(ev.get(k)) for k in ("ev", "a", "host", "hdr", "hdrs", "auth", "ref", "chain") if k in ev).replace(" ", "")
             if alt:
                 # conformance only: with the guard off the specification itself breaks the formula
                 txt = re.sub(r"(?m)^PROPERTIES.*$", "", open(os.path.join(SPEC, tcfg)).read())
@@ -163,7 +168,8 @@ def creds_model(par, thorough):
         par.go(run.tlc_negctl, "Creds", "Creds_mc.cfg", {guard: "FALSE", "MaxPulls": "2"}, [formula], 2, 600, CREDS_INTERNAL)
 
 
-def creds_binding(par, thorough, results):
+def creds_prepare(par, thorough, results):
+    """generation + walks; returns the plan for the (single, shared) go test invocation and what to do afterwards"""
     run = par.run
     # R: every edge of the generation graph replayed on cri.NewCRIKeychain
     ov = {"Forms": tset(["up", "up@reg", "tok@dio", "b64@reg", "nil", "bad64", "up@bare"])} if thorough else \
@@ -177,16 +183,18 @@ def creds_binding(par, thorough, results):
     inp = os.path.join(run.scratch, "creds_walks.json")
     write_json(inp, [{"out": replay_out, "walks": [[{k: v for k, v in s.items() if k not in ("post", "parts")} for s in w] for w in walks]}])
     random_out = os.path.join(run.scratch, "creds_random.ndjson")
-    par.go_driver("", "./service/keychain/cri/", CREDS_OVERLAY, "^TestVerifCreds(Replay|Random)$",
-                  env={"VERIF_CREDS_IN": inp, "VERIF_CREDS_RANDOM_OUT": random_out,
-                       "VERIF_CREDS_RANDOM_TRACES": "400" if thorough else "40",
-                       "VERIF_CREDS_IMAGES": json.dumps(DOCKER_IMAGES), "VERIF_CREDS_HOSTS": json.dumps(DOCKER_HOSTS),
-                       "VERIF_CREDS_REFS": json.dumps(DOCKER_REFS), "VERIF_CREDS_FORMS": json.dumps(ALL_FORMS)})
     nontriv = lambda t: any(e.get("ev") == "Query" and (e.get("user") or e.get("secret")) for e in t)
-    par.go(validate, par, "creds-replay", replay_out, "CredsTrace", "CredsTrace.cfg", "CredsMonitor", "CredsMonitor.cfg",
-           None, CREDS_PROPS, nontriv, 3, results)
-    par.go(validate, par, "creds-random docker.io", random_out, "CredsTrace", "CredsTrace.cfg", "CredsMonitor", "CredsMonitor.cfg",
-           {"Images": tset(DOCKER_IMAGES), "Hosts": tset(DOCKER_HOSTS)}, CREDS_PROPS, nontriv, 1, results)
+
+    def after(rc, out):
+        par.go(validate, par, "creds-replay", replay_out, "CredsTrace", "CredsTrace.cfg", "CredsMonitor", "CredsMonitor.cfg",
+               None, CREDS_PROPS, nontriv, 3, results)
+        par.go(validate, par, "creds-random docker.io", random_out, "CredsTrace", "CredsTrace.cfg", "CredsMonitor", "CredsMonitor.cfg",
+               {"Images": tset(DOCKER_IMAGES), "Hosts": tset(DOCKER_HOSTS)}, CREDS_PROPS, nontriv, 1, results)
+    return dict(pkg="./service/keychain/cri/", overlay=CREDS_OVERLAY, tests="TestVerifCreds(Replay|Random)", after=after,
+                env={"VERIF_CREDS_IN": inp, "VERIF_CREDS_RANDOM_OUT": random_out,
+                     "VERIF_CREDS_RANDOM_TRACES": "400" if thorough else "40",
+                     "VERIF_CREDS_IMAGES": json.dumps(DOCKER_IMAGES), "VERIF_CREDS_HOSTS": json.dumps(DOCKER_HOSTS),
+                     "VERIF_CREDS_REFS": json.dumps(DOCKER_REFS), "VERIF_CREDS_FORMS": json.dumps(ALL_FORMS)})
 
 
 # ------------------------------------------------------------------------------------------------ Fetcher
@@ -220,10 +228,11 @@ def fetcher_graph(par, name, cfg, ov, extra, jobs, results):
     jobs[name] = {"name": name, "out": os.path.join(run.scratch, "fetcher_replay_%s.ndjson" % name), "walks": ws}
 
 
-def fetcher_binding(par, thorough, results):
+def fetcher_prepare(par, thorough, results):
     run = par.run
     # R/G: every edge of the state graphs with the reads of url and header as separate steps, forced through the gates.
-    # quick: concurrent graph only from a redirecting registry (a registry that starts direct never makes a fetcher refresh)
+    # quick: the concurrent graph starts from a redirecting registry only; the paths from a directly serving registry (the registry
+    # denies once, the refresh turns into a redirect) are in the sequential graph, which explores every initial personality
     jobs = {}
     g1 = par.leaf.submit(fetcher_graph, par, "conc", "Fetcher_gen.cfg", {"MaxEnv": "3"} if thorough else {"Modes": '{"redir"}'},
                          300 if thorough else 20, jobs, results)
@@ -234,47 +243,68 @@ def fetcher_binding(par, thorough, results):
     inp = os.path.join(run.scratch, "fetcher_walks.json")
     write_json(inp, jl)
     free_out = os.path.join(run.scratch, "fetcher_free.ndjson")
-    rc, out = par.go_driver("", "./fs/remote/", FETCH_OVERLAY, "^TestVerifFetcher(Replay|Free)$",
-                            env={"VERIF_FETCHER_IN": inp, "VERIF_FETCHER_FREE_OUT": free_out,
-                                 "VERIF_FETCHER_FREE_TRACES": "3000" if thorough else "150"}, timeout=2400)
-    if rc != 0:
-        # unsynchronized access to the (url, header) pair is exactly what lets the headers travel with the wrong url
-        m = re.search(r"WARNING: DATA RACE\n(?:.*\n){0,40}?.*?(httpFetcher\)\.\w+)", out)
-        site = m.group(1) if m else "unknown"
-        if "resolver.go" in out and "httpFetcher" in out:
-            run.violation("datarace:httpFetcher:%s" % site,
-                          "data race on httpFetcher state (url/header pair) reported while the driver ran fetch/check/refreshURL concurrently",
-                          {"log": out[out.find("WARNING: DATA RACE"):][:6000]})
-        else:
-            raise Inconclusive("driver failed with a data race outside httpFetcher:\n" + out[-3000:])
     nontriv = lambda t: any(e.get("ev") == "Send" and e.get("host") in ("L1", "L2") for e in t) and \
         any(e.get("ev") == "Send" and e.get("hdr") == "Org" for e in t)
-    try:
-        sums = json.load(open(inp + ".summary"))
-    except Exception as e:
-        raise Inconclusive("replay summary missing: %s" % e)
-    vf = []
-    for j in jl:
-        vf.append(par.go(validate, par, "fetcher-replay " + j["name"], j["out"], "FetcherTrace", "FetcherTrace.cfg",
-                         "FetcherMonitor", "FetcherMonitor.cfg", None, FETCH_PROPS, nontriv, 5, results, TORN))
-    par.go(validate, par, "fetcher-free", free_out, "FetcherTrace", "FetcherTrace.cfg", "FetcherMonitor", "FetcherMonitor.cfg",
-           None, FETCH_PROPS, nontriv, 2, results, TORN)
-    for j, sm, f in zip(jl, sums, vf):
+
+    def replay_summary(j, sm, f):
         try:
             f.result()
         except Inconclusive:
-            continue        # reported by join()
+            return          # reported by join()
         log("[replay] fetcher %s: %d walks %d steps executed, %d diverged" % (j["name"], sm["walks"], sm["steps"], len(sm["diverged"] or [])))
         if sm["diverged"] and results.get("fetcher-replay " + j["name"]):
             run.inconclusive.append("SPEC-DRIFT fetcher-replay %s: the implementation could not be driven along %d walk(s), e.g. %s" % (
                 j["name"], len(sm["diverged"]), sm["diverged"][0]))
             results["fetcher-replay " + j["name"]] = False
 
+    def after(rc, out):
+        try:
+            sums = json.load(open(inp + ".summary"))
+        except Exception as e:
+            raise Inconclusive("replay summary missing: %s" % e)
+        for j, sm in zip(jl, sums):
+            f = par.go(validate, par, "fetcher-replay " + j["name"], j["out"], "FetcherTrace", "FetcherTrace.cfg",
+                       "FetcherMonitor", "FetcherMonitor.cfg", None, FETCH_PROPS, nontriv, 5, results, TORN)
+            par.go(replay_summary, j, sm, f)
+        par.go(validate, par, "fetcher-free", free_out, "FetcherTrace", "FetcherTrace.cfg", "FetcherMonitor", "FetcherMonitor.cfg",
+               None, FETCH_PROPS, nontriv, 2, results, TORN)
+    return dict(pkg="./fs/remote/", overlay=FETCH_OVERLAY, tests="TestVerifFetcher(Replay|Free)", after=after,
+                env={"VERIF_FETCHER_IN": inp, "VERIF_FETCHER_FREE_OUT": free_out,
+                     "VERIF_FETCHER_FREE_TRACES": "3000" if thorough else "150"})
+
+
+# ------------------------------------------------------------------------------------------------ Hosts
+def hosts_model(par, thorough):
+    run = par.run
+    par.go(run.tlc_mc, "Hosts", "Hosts_mc.cfg", None, 2, 900, "Hosts_mc.cfg")
+    par.go(run.tlc_negctl, "Hosts", "Hosts_mc.cfg", {"HeaderPerEntry": "FALSE"}, list(HOSTS_PROPS), 2, 600, HOSTS_INTERNAL)
+
+
+def hosts_prepare(par, thorough, results):
+    run = par.run
+    # R: every config of <= 2 (thorough: 3) mirrors x header yes/no x every set of hosts that have the blob, through the real
+    # RegistryHostsFromConfig and remote.Resolver against loopback servers
+    ov = {"Mirrors": tset(["m1", "m2", "m3"]), "MaxMirrors": "3"} if thorough else None
+    inits, edges = run.tlc_edges("HostsGen", "Hosts_gen.cfg", ov, timeout=900)
+    walks, st = edge_cover(inits, edges, maxlen=24, rng=random.Random(run.seed), extra_walks=0)
+    log("[walks] hosts: %s" % st)
+    run.cov["stages"].append(dict(stage="edge-cover", module="Hosts", **st))
+    results["hosts-cover"] = st["covered"] == st["edges"]
+    out = os.path.join(run.scratch, "hosts_replay.ndjson")
+    inp = os.path.join(run.scratch, "hosts_walks.json")
+    write_json(inp, [{"out": out, "walks": [[{k: v for k, v in s.items() if k in ("act", "cfg", "up")} for s in w] for w in walks]}])
+    nontriv = lambda t: any(e.get("ev") == "Send" and e.get("hdrs") for e in t) and len({e.get("host") for e in t if e.get("ev") == "Send"}) > 1
+
+    def after(rc, out_text):
+        par.go(validate, par, "hosts-replay", out, "HostsTrace", "HostsTrace.cfg", "HostsMonitor", "HostsMonitor.cfg",
+               None, HOSTS_PROPS, nontriv, 4, results)
+    return dict(pkg="./service/resolver/", overlay=HOSTS_OVERLAY, tests="TestVerifHostsReplay", after=after, env={"VERIF_HOSTS_IN": inp})
+
 
 def check(run):
     thorough = run.tier == "thorough"
     run.cov["rule"] = ("behaviours = walks covering every edge of the TLC state graphs of Creds (request sequences against the real CRI "
-                       "keychain proxy) and Fetcher (interleavings of resolution/fetch/check/refresh steps and registry personality changes, "
+                       "keychain proxy), Hosts (mirror configurations through RegistryHostsFromConfig + fall-through resolution) and Fetcher (interleavings of resolution/fetch/check/refresh steps and registry personality changes, "
                        "forced on real goroutines through gates), plus seeded random request sequences and free-running goroutine traces; "
                        "non-trivial = a credential was offered (Creds) / a redirect location was contacted and the host headers were sent "
                        "(Fetcher); distinct by hash of the recorded event list")
@@ -284,18 +314,46 @@ def check(run):
         "Fetcher: one registry host, two redirect locations; locations never challenge with 401; 400/single-range fallback, multipart and "
         "retryablehttp are not modelled; Authorization comes from the real docker authorizer with Basic auth and a credential function that "
         "offers the secret for the registry host only",
+        "Hosts: distinct mirror hosts, string-valued headers, loopback HTTP servers (404 = host does not have the blob); one fall-through "
+        "resolution + one check per configuration",
         "TLC bounds: see stages; trace configs are unbounded",
     ]
     only = os.environ.get("VERIF_C18_ONLY", "")
     par = Par(run, 6)
     results = {}
+    preps = []
     if only in ("", "creds"):
         creds_model(par, thorough)
-        par.go(creds_binding, par, thorough, results)
+        preps.append(par.leaf.submit(creds_prepare, par, thorough, results))
     if only in ("", "fetcher"):
         fetcher_model(par, thorough)
-        par.go(fetcher_binding, par, thorough, results)
-    par.join()
+        preps.append(par.leaf.submit(fetcher_prepare, par, thorough, results))
+    if only in ("", "hosts"):
+        hosts_model(par, thorough)
+        preps.append(par.leaf.submit(hosts_prepare, par, thorough, results))
+    try:
+        plans = [p.result() for p in preps]
+        # ONE go test invocation for all drivers (packages are built and run in parallel by the go command)
+        overlay, env = {}, {}
+        for pl in plans:
+            overlay.update(pl["overlay"])
+            env.update(pl["env"])
+        pkgs = [pl["pkg"] for pl in plans]
+        rc, out = run.go_driver("", pkgs[-1], overlay, "^(%s)$" % "|".join(pl["tests"] for pl in plans), env=env, timeout=3000,
+                                extra_args=pkgs[:-1])
+        if rc != 0:
+            # unsynchronized access to the (url, header) pair is exactly what lets the headers travel with the wrong url
+            m = re.search(r"WARNING: DATA RACE\n(?:.*\n){0,40}?.*?(httpFetcher\)\.\w+)", out)
+            if m and "resolver.go" in out:
+                run.violation("datarace:httpFetcher:%s" % m.group(1),
+                              "data race on httpFetcher state (url/header pair) reported while the driver ran fetch/check/refreshURL concurrently",
+                              {"log": out[out.find("WARNING: DATA RACE"):][:6000]})
+            else:
+                raise Inconclusive("driver failed with a data race outside httpFetcher:\n" + out[-3000:])
+        for pl in plans:
+            pl["after"](rc, out)
+    finally:
+        par.join()
     run.cov["exhaustive"] = bool(results) and all(results.values()) and not only
 
 
